@@ -20,6 +20,9 @@ esac
 # executions per worker: the structured (tape) target builds histories with values up to 140 KB under ASan and is ~100x slower
 case "$T" in fz_tape) DEF_RUNS=250000 ;; *) DEF_RUNS=6000000 ;; esac
 RUNS="${VERIF_FUZZ_RUNS:-$DEF_RUNS}"
+# ... and by wall time: a corpus that drifts towards very large histories (tens of milliseconds per execution under ASan) must
+# not turn one campaign into hours. Whichever bound is reached first ends the campaign; neither is a verdict.
+SECS="${VERIF_FUZZ_SECS:-420}"
 export CARGO_NET_OFFLINE=true
 cd "$VERIF/harness" || exit 2
 if ! cargo +nightly fuzz build --fuzz-dir "$DIR" "$T" >"$DIR/build.log" 2>&1; then
@@ -38,7 +41,7 @@ i=0
 PIDS=""
 while [ "$i" -lt "$JOBS" ]; do
   ( cd "$WORK" && VERIF_PROP="$ID" VERIF_DIR="$VERIF" timeout 7000 "$BIN" "$WORK/corpus" -artifact_prefix="$WORK/artifacts/" \
-      -runs="$RUNS" -seed="$((SEED * 1000 + i + 1))" -max_len="$MAXLEN" -len_control=0 $DICTARG -reload=1 -print_final_stats=1 -rss_limit_mb=4096 \
+      -runs="$RUNS" -max_total_time="$SECS" -seed="$((SEED * 1000 + i + 1))" -max_len="$MAXLEN" -len_control=0 $DICTARG -reload=1 -print_final_stats=1 -rss_limit_mb=4096 \
       >"$WORK/fuzz-$i.log" 2>&1 ) &
   PIDS="$PIDS $!"
   i=$((i + 1))
